@@ -326,6 +326,7 @@ def run_leg(env, leg, pid, tier, seed, replay):
                    "--threads", "1", "--shard", "%d/%d" % (i, shards), "--max-cases", str(n), "--time-budget", str(MIRI_SECONDS), "--out", o]
             procs.append((i, o, cmd, subprocess.Popen(cmd, cwd=env.harness, env=e, stdout=subprocess.PIPE, stderr=subprocess.STDOUT, text=True, errors="replace")))
         parts, bad = [], []
+        rerun_cache = {}  # one confirming re-run per leg (reports of several shards are the same report)
         deadline = time.time() + MIRI_SECONDS * 3 + 120  # a shard stuck in one long case is cut off (inconclusive shard)
         for i, o, cmd, p in procs:
             try:
@@ -337,7 +338,9 @@ def run_leg(env, leg, pid, tier, seed, replay):
                 rc = None
 
             def rerun(cmd=cmd):
-                return run(cmd, env.harness, e, 3000)
+                if "r" not in rerun_cache:
+                    rerun_cache["r"] = run(cmd, env.harness, e, MIRI_SECONDS * 3 + 120)
+                return rerun_cache["r"]
             r = finish_leg(env, name, pid, rc, out, o, rerun)
             if "inconclusive" in r:
                 bad.append("shard %d: %s" % (i, r["inconclusive"]))
